@@ -480,7 +480,7 @@ impl Check for C18 {
     fn meta(&self) -> Meta {
         Meta {
             level: "exploration",
-            rule: "fidelity: 1-4 datagrams per run for stream ids 4k (k swept systematically over 0..2^16 by the run index in the first 131072 runs, varint form boundaries 63/64, 16383/16384, 2^30-1/2^30, 2^60-1, and drawn 60-bit k) x payloads of 0..1191 arbitrary bytes (single and multi-chunk Bufs) sent through DatagramSender in either direction x drawn consumption of the EncodedDatagram Buf by the transport (chunk/advance whole, copy_to_bytes, byte-wise, drawn sizes) and, on a directly encoded copy, a walk under the general bytes::Buf contract (advance by less than, exactly, or more than the current chunk, incl. one advance spanning quarter stream ID and payload) with remaining()/chunk() compared to the reference bytes at every step x unreliable delivery (drop, duplicate, reorder) to the peer's DatagramReader; raw datagrams: all byte strings of length 0-1, a systematic slice of length 2, drawn strings up to 9 bytes incl. truncated varints and quarter ids >= 2^60; every run counts as non-trivial; distinct = distinct schedule signatures",
+            rule: "fidelity: 1-4 datagrams per run for stream ids 4k (k swept systematically over 0..2^16 by the run index in the first 131072 runs, varint form boundaries 63/64, 16383/16384, 2^30-1/2^30, 2^60-1, and drawn 60-bit k) x payloads of 0..1191 arbitrary bytes (single and multi-chunk Bufs) sent through DatagramSender in either direction x drawn consumption of the EncodedDatagram Buf by the transport (chunk/advance whole, copy_to_bytes, byte-wise, drawn sizes) and, on a directly encoded copy, a walk under the general bytes::Buf contract (advance by less than, exactly, or more than the current chunk, incl. one advance spanning quarter stream ID and payload) with remaining()/chunk() compared to the reference bytes at every step x unreliable delivery (drop, duplicate, reorder) to the peer's DatagramReader, whose transport buffer is one chunk or two segments cut at a drawn point (possibly inside the quarter stream id); raw datagrams: all byte strings of length 0-1, a systematic slice of length 2, drawn strings up to 9 bytes incl. truncated varints and quarter ids >= 2^60; every run counts as non-trivial; distinct = distinct schedule signatures",
             real: &["h3_datagram::datagram::{Datagram, EncodedDatagram}", "h3_datagram DatagramSender / DatagramReader / HandleDatagramsExt for client and server", "h3 connection drivers and error propagation"],
             stub: &["QUIC transport incl. the datagram extension traits (SimQuic)", "executor (simexec)", "raw peer for malformed datagrams"],
             assumptions: &["the Quinn datagram adapter (h3-quinn/src/datagram.rs) is exercised by C17's engine, not here"],
